@@ -3,6 +3,7 @@ CONSTANTS
   Jobs <- JobsC14Thorough
   Macros <- MacrosC14
   Paths <- PathsC14
+  StripLastByteBug = FALSE
   EmitMode = "live"
 INVARIANTS Sane EmitInv
 CHECK_DEADLOCK FALSE
